@@ -1,5 +1,5 @@
 """C03: the TBB entry points under every schedule (vtbb shim driven by TLC-generated schedules) and under real oneTBB."""
-import json, os, random, shutil
+import json, os, random, re, shutil
 import vlib, gens, p_mcb, p_approx
 from p_comp import canon
 
@@ -69,6 +69,53 @@ def strip_stats(trace):
     return stats
 
 
+def race_stage(res, tier, seed, wd):
+    """Data-race clause on ALL shared memory: the six TBB entry points compiled with clang++ -fsanitize=thread against the
+    threaded shim shim/ttbb (every region really runs its sub-ranges on separate threads, nothing but the library's own
+    synchronisation orders them).  Each ThreadSanitizer report becomes a Race event decided by Trace_ParFor!RaceViol."""
+    import glob
+    rng = random.Random(seed + 31)
+    exe = vlib.build('h_race', [os.path.join(vlib.HARNESS, 'h_race.cpp')], flags=['-g', '-fsanitize=thread'], libs=('-lboost_timer', '-lpthread'), shim='ttbb', cxx='clang++')
+    gs = [gens.reweight(rng, gens.complete(6), list(range(1, 30))), gens.reweight(rng, gens.complete(8), list(range(1, 99))), gens.reweight(rng, gens.grid(3, 3), [1, 2, 3]),
+          gens.reweight(rng, gens.petersen(), [1, 2]), gens.reweight(rng, gens.wheel(7), [1, 2, 3]), gens.union(gens.cycle(4, 2), gens.cycle(3, 7)),
+          gens.reweight(rng, gens.complete(10), list(range(1, 500)))]
+    gs += gens.random_graphs(rng, 10 if tier == 'quick' else 150, 8, 14, 30, [[1, 2, 3], list(range(1, 50))])
+    inp = os.path.join(wd, 'race.in')
+    with open(inp, 'w') as f:
+        f.write('\n'.join(vlib.graph_line(i, g['n'], g['edges'], 1) for i, g in enumerate(gs)) + '\n')
+    out = os.path.join(wd, 'race.ndjson')
+    logp = os.path.join(wd, 'tsan')
+    rc, o = vlib.run_harness(exe, ['--in', inp, '--out', out], timeout=3000, env={'TSAN_OPTIONS': 'halt_on_error=0 exitcode=0 report_thread_leaks=0 log_path=' + logp})
+    ran = vlib.count_events(out).get('Ran', 0) if os.path.exists(out) else 0
+    if rc != 0 or ran != len(gs) * 6:
+        raise vlib.HarnessError('h_race failed rc=%s, %d of %d calls ran: %s' % (rc, ran, len(gs) * 6, o[-1500:]))
+    events, seen = [], set()
+    for fn in glob.glob(logp + '.*'):
+        txt = open(fn, errors='replace').read()
+        for rep in txt.split('WARNING: ThreadSanitizer: data race')[1:]:
+            acc = []
+            for m in re.finditer(r'^\s*(Previous )?(atomic )?(write|read) of size \d+ at \S+ by (thread T\d+|main thread)[^\n]*\n((?:\s+#\d+ [^\n]*\n)+)', rep, re.M | re.I):
+                frames = re.findall(r'(include/parmcb/[\w/.]+:\d+)', m.group(5))
+                acc.append({'thread': m.group(4), 'kind': m.group(3).lower(), 'where': frames[0] if frames else 'outside parmcb'})
+            if len(acc) >= 2:
+                key = tuple(sorted((a['where'], a['kind']) for a in acc[:2]))
+                if key not in seen:
+                    seen.add(key)
+                    events.append({'e': 'Race', 'a': acc[0], 'b': acc[1]})
+    res.cov['tsan_stage'] = {'entry_point_calls_under_ThreadSanitizer': ran, 'graphs': len(gs), 'distinct_reports': len(events),
+                             'what': 'threaded shim (4 threads per region, lock-free concurrent_vector), clang++ -fsanitize=thread'}
+    if events:
+        tr = os.path.join(wd, 'race_events.ndjson')
+        with open(tr, 'w') as f:
+            for e in events:
+                f.write(json.dumps(e) + '\n')
+        v = vlib.validate_trace('Trace_ParFor', 'Trace_ParFor.cfg', tr, start_event=None, nchunks=1)
+        res.add_validation(v, len(events))
+        for rj in v['rejects']:
+            ev0 = json.loads(rj['segment'][0])
+            res.violation({'clauses': rj['clauses'], 'stage': 'ThreadSanitizer on the threaded shim', 'access_1': ev0['a'], 'access_2': ev0['b']}, {'trace_segment': rj['segment'][:1], 'spec': 'Trace_ParFor'})
+
+
 def judge(res, v, spec):
     for rj in v['rejects']:
         mine = sorted(set(rj['clauses']) & CL)
@@ -83,7 +130,7 @@ def judge(res, v, spec):
 def check_C03(res, tier, seed, replay):
     rng = random.Random(seed)
     res.assumptions += ['vtbb executes each task (leaf body, join) atomically; it reproduces oneTBB\'s reduce semantics (non-stolen right half continues the same body, stolen half starts from the identity and is joined left-to-right) as specified in ParRegion.tla',
-                        'data-race freedom: (a) conflicts that change results show up as schedule dependence; (b) vtbb records, for every task of every region, which elements of live tbb::concurrent_vectors it touched and which it changed (snapshot diff), and TLC checks that no element written by one task is touched by another (ParFor.tla); shared memory that is not a concurrent_vector (e.g. the SPTree parity update) is not observed']
+                        'data-race freedom: (a) conflicts that change results show up as schedule dependence; (b) vtbb records, for every task of every region, which elements of live tbb::concurrent_vectors it touched and which it changed (snapshot diff), and TLC checks that no element written by one task is touched by another (ParFor.tla); (c) ALL shared memory: the entry points are rebuilt with clang++ -fsanitize=thread against the threaded shim shim/ttbb (regions really run on 4 threads, lock-free concurrent_vector so that no accidental happens-before edge hides a race) and every ThreadSanitizer report is a Race event (Trace_ParFor!RaceViol); ThreadSanitizer is happens-before based, so a conflict is reported whenever the two accesses are executed by different tasks of one region in the recorded runs, whatever the timing']
     wd = vlib.scratch('C03')
     try:
         r = vlib.tlc_ok('ParRegion', 'MC_ParRegion_q.cfg' if tier == 'quick' else 'MC_ParRegion_t.cfg', extra=['-coverage', '1'], timeout=3000)
@@ -145,6 +192,7 @@ def check_C03(res, tier, seed, replay):
         for rj in vf['rejects']:
             ev0 = json.loads(rj['segment'][0])
             res.violation({'algo': ev0.get('algo'), 'clauses': rj['clauses'], 'kind': ev0.get('kind'), 'n': ev0.get('n')}, {'trace_segment': rj['segment'][:1], 'spec': 'Trace_ParFor'})
+        race_stage(res, tier, seed, wd)
         # region-level binding (diagnostic): each recorded region is an execution of ParRegion's small-step machine
         rg = os.path.join(wd, 'regions.ndjson')
         with open(rg, 'w') as o:
